@@ -259,7 +259,11 @@ func RunJobs(w *symex.World, jobs []Job, opt Options, known map[string]bool) []*
 					}
 					q0, t0, s0, u0, k0, e0 = sess.Queries, sess.Time, sess.SatN, sess.UnsatN, sess.UnkN, len(sess.Errors)
 					h, herr := w.Harness(j.Harness)
-					ex = &symex.Explorer{Prog: w.Prog, World: w, Harness: h, Case: normCase(j.Case), St: st, Sol: sess, Known: known, Ring: j.Ring, OneShotTimeoutMs: opt.OneShotMs, OneShotBudget: opt.OneShotBudget}
+					budget := opt.OneShotBudget
+					if be, _ := j.Case["best_effort"].(bool); be && budget > 6*time.Minute {
+						budget = 6 * time.Minute // a proof attempt at the edge of the solvers' reach: bounded, reported as undecided if it does not finish
+					}
+					ex = &symex.Explorer{Prog: w.Prog, World: w, Harness: h, Case: normCase(j.Case), St: st, Sol: sess, Known: known, Ring: j.Ring, OneShotTimeoutMs: opt.OneShotMs, OneShotBudget: budget}
 					ex.Init()
 					if herr != nil {
 						ex.Incon = append(ex.Incon, symex.Inconclusive{What: herr.Error()})
